@@ -19,10 +19,13 @@ pub struct DeepSc {
     /// "str" | "slice" | "iter"
     pub via: String,
     pub opts: (bool, bool),
+    /// tail "generic": one fault of the stream seam at an absolute item index of the document text:
+    /// (kind: fail | end | flip | insert | drop, position, character for flip/insert)
+    pub fault: Option<(String, u64, char)>,
 }
 
 pub const SHAPES: [&str; 6] = ["array-open", "array-closed", "object-open", "object-closed", "mixed-closed", "wide-closed"];
-pub const TAILS: [&str; 11] = ["none", "end-in", "fail-in", "end-out", "fail-out", "wrong-closer", "garbage-after-root", "outer-garbage", "outer-missing-colon", "outer-end", "outer-fail"];
+pub const TAILS: [&str; 15] = ["none", "end-in", "fail-in", "end-out", "fail-out", "wrong-closer", "garbage-after-root", "outer-garbage", "outer-missing-colon", "outer-end", "outer-fail", "fail-after-root", "ws-fail-after-root", "ws-garbage-after-root", "generic"];
 
 impl DeepSc {
     pub fn to_json(&self) -> J {
@@ -30,18 +33,24 @@ impl DeepSc {
             ("shape".into(), J::from(self.shape.as_str())), ("depth".into(), J::UInt(self.depth)), ("stack_kib".into(), J::UInt(self.stack_kib)),
             ("tail".into(), J::from(self.tail.as_str())), ("tail_at".into(), J::UInt(self.tail_at)), ("via".into(), J::from(self.via.as_str())),
             ("options".into(), J::Arr(vec![J::Bool(self.opts.0), J::Bool(self.opts.1)])),
+            ("fault".into(), match &self.fault { Some((k, p, c)) => J::Arr(vec![J::from(k.as_str()), J::UInt(*p), J::UInt(*c as u64)]), None => J::Null }),
         ])
     }
     pub fn from_json(j: &J) -> Result<DeepSc, String> {
         let s = |k: &str| j.get(k).and_then(J::as_str).map(String::from).ok_or_else(|| k.to_string());
         let u = |k: &str| j.get(k).and_then(J::as_u64).ok_or_else(|| k.to_string());
         let o = j.get("options").and_then(J::as_arr).ok_or("options")?;
+        let fault = match j.get("fault").and_then(J::as_arr) {
+            Some([k, p, c]) => Some((k.as_str().ok_or("fault kind")?.to_string(), p.as_u64().ok_or("fault pos")?, char::from_u32(c.as_u64().ok_or("fault char")? as u32).ok_or("fault char")?)),
+            _ => None,
+        };
         Ok(DeepSc { shape: s("shape")?, depth: u("depth")?, stack_kib: u("stack_kib")?, tail: s("tail")?, tail_at: u("tail_at")?, via: s("via")?,
-            opts: (o.first().and_then(J::as_bool).unwrap_or(false), o.get(1).and_then(J::as_bool).unwrap_or(false)) })
+            opts: (o.first().and_then(J::as_bool).unwrap_or(false), o.get(1).and_then(J::as_bool).unwrap_or(false)), fault })
     }
     pub fn digest(&self) -> u64 {
         let mut d = crate::kernel::rng::Digest::default();
         d.str(&self.shape); d.u64(self.depth); d.u64(self.stack_kib); d.str(&self.tail); d.u64(self.tail_at); d.str(&self.via);
+        if let Some((k, p, c)) = &self.fault { d.str(k); d.u64(*p); d.u64(*c as u64); }
         d.finish()
     }
 
@@ -78,6 +87,9 @@ impl DeepSc {
                 } else { s.push(']'); }
             }
             "garbage-after-root" => s.push_str(" x"),
+            "ws-garbage-after-root" => s.push_str(" \n\t \r]"),
+            "fail-after-root" => return (s, true),
+            "ws-fail-after-root" => { s.push_str(" \n "); return (s, true); }
             "outer-garbage" => s.push_str(" x"),
             "outer-missing-colon" => s.push_str(",\"b\" 1}"),
             "outer-end" => {}
@@ -98,15 +110,35 @@ pub struct DeepOutcome {
 pub fn child_main(json: &str) -> i32 {
     let sc = match J::parse(json).and_then(|j| DeepSc::from_json(&j)) { Ok(s) => s, Err(e) => { eprintln!("bad deep scenario: {}", e); return 2; } };
     let (text, fails) = sc.text();
-    let stream_sc = match sc.via.as_str() {
-        "slice" => StreamSc { entry: Entry::SliceWith, target: Target::Value, opts: sc.opts, src: Src::Bytes(text.into_bytes()), faults: vec![] },
-        "str" => StreamSc { entry: Entry::StrWith, target: Target::Value, opts: sc.opts, src: Src::Events(text.chars().map(|c| Ev::Item(c, c.len_utf8() as u32)).collect()), faults: vec![] },
+    let stream_sc = if let (Some((kind, pos, c)), true) = (&sc.fault, sc.tail == "generic") {
+        // the generic tail: one stream fault at an absolute position of the (closed) document
+        let mut evs: Vec<Ev> = text.chars().map(|c| Ev::Item(c, c.len_utf8() as u32)).collect();
+        let k = (*pos as usize).min(evs.len());
+        match kind.as_str() {
+            "fail" => { evs.truncate(k); evs.push(Ev::Fail(9)); }
+            "end" => { evs.truncate(k); }
+            "flip" => { if k < evs.len() { evs[k] = Ev::Item(*c, c.len_utf8() as u32); } }
+            "insert" => { evs.insert(k, Ev::Item(*c, c.len_utf8() as u32)); }
+            "drop" => { if k < evs.len() { evs.remove(k); } }
+            _ => {}
+        }
+        let mut s = StreamSc { entry: match sc.via.as_str() { "slice" => Entry::SliceWith, "str" if kind != "fail" => Entry::StrWith, _ => Entry::ParseWith }, target: Target::Value, opts: sc.opts, src: Src::Events(evs), faults: vec![] };
+        if s.entry == Entry::SliceWith {
+            let failed = matches!(&s.src, Src::Events(e) if matches!(e.last(), Some(Ev::Fail(_))));
+            s.normalise();
+            if failed { if let Src::Bytes(b) = &mut s.src { b.push(0xff); } }
+        }
+        s
+    } else { match sc.via.as_str() {
+        // on the byte path a failing stream is an ill-formed byte
+        "slice" => { let mut b = text.into_bytes(); if fails { b.push(0xff); } StreamSc { entry: Entry::SliceWith, target: Target::Value, opts: sc.opts, src: Src::Bytes(b), faults: vec![] } }
+        "str" if !fails => StreamSc { entry: Entry::StrWith, target: Target::Value, opts: sc.opts, src: Src::Events(text.chars().map(|c| Ev::Item(c, c.len_utf8() as u32)).collect()), faults: vec![] },
         _ => {
             let mut evs: Vec<Ev> = text.chars().map(|c| Ev::Item(c, c.len_utf8() as u32)).collect();
             if fails { evs.push(Ev::Fail(9)); }
             StreamSc { entry: Entry::ParseWith, target: Target::Value, opts: sc.opts, src: Src::Events(evs), faults: vec![] }
         }
-    };
+    } };
     std::panic::set_hook(Box::new(|_| {}));
     let stack = (sc.stack_kib as usize) * 1024;
     let h = std::thread::Builder::new().stack_size(stack).name("small-stack".into()).spawn(move || {
